@@ -13,6 +13,7 @@ mod c13;
 mod c14;
 mod c15;
 mod c17;
+mod c18;
 mod c19;
 mod c20;
 mod sp;
@@ -106,6 +107,10 @@ fn main() {
                 "C20" => {
                     rep = Report::new("C20", "cross product of every public function of Tree (with every choice of live / removed / out-of-range node arguments and nine comparison partners), DistanceMatrix (sizes 0-3, non-finite matrices) and the generators (n = 0..3, in a watchdogged child process) with every class of degenerate value: empty tree, single node, unnamed / duplicate leaves, missing lengths, non-binary, unrooted, unary chain, two roots, everything removed, removed slot before the root, stale caches after an un-reset edit, trees degenerated by random edit histories; each call isolated by catch_unwind; a case is one call; non-trivial = the call did not simply succeed");
                     c20::run(tier == "thorough", seed, &driver, &mut rep);
+                }
+                "C18" => {
+                    rep = Report::new("C18", "runs of the REAL phylotree binary built from the working tree on generated tree files (dyadic lengths, all / mixed / no lengths, root lengths, named internal nodes): stats, matrix (both layouts, -o), distance, compare, collapse (six thresholds, -e), rescale, remove (random tips and whole sibling groups), resolve (-o); outputs compared with the library in-process, with independent computations of the harness and with the arena / split / matrix / CLI models; a case is one tree file; non-trivial = at least four nodes");
+                    c18::run(tier == "thorough", seed, &driver, &mut rep);
                 }
                 "C02" => {
                     rep = Report::new("C02", "strings fed to Tree::from_newick (corpus, every string up to a length bound over the token alphabet ( ) , ; : [ ] \" a 1 space, every short float lexeme, mutated valid Newick, random Unicode); a case is one string; non-trivial = contains at least one structural token");
